@@ -52,15 +52,15 @@ const (
 // derived by the caller from the run seed.
 type Config struct {
 	Policy    int       `json:"policy"`
-	Seed      uint64    `json:"seed"`       // scheduler PRNG
-	Mean      int64     `json:"mean"`       // PolRandom: mean quantum (steps)
-	Changes   []int64   `json:"changes"`    // PolPCT: step numbers of priority change points
-	Prio      []int     `json:"prio"`       // PolPCT: initial priority per worker (higher runs first)
-	Preempts  []Preempt `json:"preempts"`   // forced switches (any policy but replay)
-	Tape      []Seg     `json:"tape"`       // PolReplay
-	MaxSteps  int64     `json:"max_steps"`  // watchdog budget
-	NumSites  int       `json:"num_sites"`  // size of the site table
-	CountSite bool      `json:"count_site"` // keep per-site visit counts
+	Seed      uint64    `json:"seed"`                // scheduler PRNG
+	Mean      int64     `json:"mean"`                // PolRandom: mean quantum (steps)
+	Changes   []int64   `json:"changes"`             // PolPCT: step numbers of priority change points
+	Prio      []int     `json:"prio"`                // PolPCT: initial priority per worker (higher runs first)
+	Preempts  []Preempt `json:"preempts"`            // forced switches (any policy but replay)
+	Tape      []Seg     `json:"tape"`                // PolReplay
+	MaxSteps  int64     `json:"max_steps"`           // watchdog budget
+	NumSites  int       `json:"num_sites"`           // size of the site table
+	CountSite bool      `json:"count_site"`          // keep per-site visit counts
 	HotSites  []uint32  `json:"hot_sites,omitempty"` // sites at which a switch is additionally taken with probability HotRate/65536
 	HotRate   uint32    `json:"hot_rate,omitempty"`
 }
@@ -327,10 +327,15 @@ func (s *sched) finish(w *worker) {
 	if next < 0 {
 		for _, o := range s.ws {
 			if !o.done {
-				s.res.Deadlock = true
-				panic("simrt: deadlock: the last runnable worker finished while others are blocked on a lock")
+				// the last runnable worker finished while others wait for a lock nobody
+				// will release: release them, they panic out of their Lock (see mutex.go)
+				s.deadlock()
+				next = s.pick()
+				break
 			}
 		}
+	}
+	if next < 0 {
 		raceDisable()
 		s.allDone <- struct{}{}
 		raceEnable()
